@@ -134,7 +134,7 @@ fn miri_jobs(prop: &str, seed: u64, fam: &str, n: u64, ops: u64) -> Vec<Job> {
         .collect()
 }
 
-const SCHED_RULE: &str = "run r = generator(seed, r): configuration (freelist kind x layout x min segment size x capacity 256..1024 x retries x 2..4 threads x single-threaded prelude building a free list of 0..6 segments with 0..64 bytes of fresh space left) + one generated program per thread (alloc bytes/aligned/typed, borrowed and owned, fill, drop, detach, leak, clone/drop arena, discard_freelist, send/receive owned buffers) executed under the hook-serialised scheduler with a strategy in {random switching p=5/30/70%, PCT d=1..3, window sweep: park thread t at atomic event k of operation j until the others finish or spin}, optional spurious compare_exchange_weak failures; family A = byte allocations only, family B = typed and aligned allocations too, family T = 3..4 threads fighting for the last 16..48 bytes of fresh space (release-on-top keeps giving them back), family P = 3..4 threads taking and giving back segments of five neighbouring sizes with no fresh space (colliding removals of adjacent nodes, failed unlinks, re-insertions); distinct_nontrivial = distinct hashes of the schedule (sequence of thread choices) of runs with at least one preemption";
+const SCHED_RULE: &str = "run r = generator(seed, r): configuration (freelist kind x layout x min segment size x capacity 256..1024 x retries x 2..4 threads x single-threaded prelude building a free list of 0..6 segments with 0..64 bytes of fresh space left) + one generated program per thread (alloc bytes/aligned/typed, borrowed and owned, fill, drop, detach, leak, clone/drop arena, discard_freelist, send/receive owned buffers) executed under the hook-serialised scheduler with a strategy in {random switching p=5/30/70%, PCT d=1..3, window sweep: park thread t at atomic event k of operation j until the others finish or spin}, optional spurious compare_exchange_weak failures; family A = byte allocations only, family B = typed and aligned allocations too, family T = 3..4 threads fighting for the last 16..48 bytes of fresh space (release-on-top keeps giving them back), family F = 2..4 threads on fresh space only, 1..5-byte allocations changing the cursor's residue while others make aligned/typed allocations (lost CAS + retry), family P = 3..4 threads taking and giving back segments of five neighbouring sizes with no fresh space (colliding removals of adjacent nodes, failed unlinks, re-insertions); distinct_nontrivial = distinct hashes of the schedule (sequence of thread choices) of runs with at least one preemption";
 
 fn seq_rule(prop: &str) -> String {
     let nt = match prop {
@@ -183,6 +183,11 @@ pub fn plan(prop: &str, tier: &str, seed: u64) -> Option<Plan> {
                 // Miri: provenance / alignment / uninitialised reads on the single-threaded paths (Vec backend only)
                 p.jobs.extend(miri_seq_jobs(prop, seed, 6));
             }
+            if prop == "C03" {
+                // capacity / alignment under concurrency (lost-CAS retry paths of the fresh-space allocations)
+                p.jobs.extend(sched_jobs(prop, seed, "F", if quick { 3 } else { 6 }, if quick { 6000 } else { 300000 }, if quick { 25 } else { 600 }, false));
+                p.jobs.extend(sched_jobs(prop, seed, "B", 2, if quick { 3000 } else { 100000 }, if quick { 25 } else { 600 }, false));
+            }
             if prop == "C16" {
                 // static part: reserved 0..=4096 exhaustively, capacity around the prefix
                 for k in 0..4u64 {
@@ -225,7 +230,7 @@ pub fn plan(prop: &str, tier: &str, seed: u64) -> Option<Plan> {
             p.extra_prefixes = vec!["axis.", "c01_", "c03_", "c05_", "c08_", "c09_", "c10_", "c13_", "c16_", "c17_", "c18_", "c20_", "release.", "alloc_err."];
             p.required_nonzero = match prop {
                 "C01" => sv(&["release.insert", "c10_slow_path_policy_checks"]),
-                "C03" => sv(&["c03_capacity_alignment_checks", "c03_recycled_typed", "c03_fresh_padded", "zero_size_requests", "c03_address_checks"]),
+                "C03" => sv(&["c03_capacity_alignment_checks", "c03_recycled_typed", "c03_fresh_padded", "zero_size_requests", "c03_address_checks", "c03_concurrent_checks"]),
                 "C05" => sv(&["c05_reopen_checks.MapMut", "c05_reopen_checks.MapCopy", "c05_reopen_checks.Map", "c05_reopen_checks.MapCopyRo"]),
                 "C08" => sv(&["c08_zero_checks_on_dirty_space.recycled", "c08_zero_checks_on_dirty_space.top-released", "c08_zero_checks_on_dirty_space.rewound", "c08_zero_checks.fresh", "c08_zero_checks.fresh-after-reopen"]),
                 "C10" => sv(&["c10_slow_path_policy_checks", "c10_split_remainders", "c10_whole_segment"]),
@@ -408,6 +413,7 @@ pub fn plan(prop: &str, tier: &str, seed: u64) -> Option<Plan> {
             p.jobs.extend(sched_jobs(prop, seed, "B", 6, count, secs, false));
             p.jobs.extend(sched_jobs(prop, seed, "T", 6, if quick { 9000 } else { 400000 }, secs, false));
             p.jobs.extend(sched_jobs(prop, seed, "P", if quick { 3 } else { 6 }, if quick { 9000 } else { 600000 }, secs, false));
+            p.jobs.extend(sched_jobs(prop, seed, "F", 2, if quick { 6000 } else { 300000 }, secs, false));
             p.jobs.extend(sched_jobs(prop, seed + 7, "A", 2, count / 8, secs, true));
             p.jobs.extend(sched_jobs(prop, seed + 7, "B", 2, count / 8, secs, true));
             match prop {
@@ -496,7 +502,7 @@ pub fn main(args: &Args) -> i32 {
     let m = run_jobs(p.jobs.clone(), p.par, &prop);
     let mut extra: Vec<(String, J)> = vec![];
     extra.push(("steps".into(), J::Int(m.c("steps") as i128)));
-    for k in ["events", "preemptions", "intact_checks", "trace_rule_checks", "handover_checks", "final_free_checks", "refs_checks", "hang_verdicts", "window_sweep_runs", "spurious_cas_failures_injected", "watchdog_hang_sightings", "allocations", "pattern_verifications", "recycled_allocations", "cross_thread_transfers"] {
+    for k in ["c03_concurrent_checks", "events", "preemptions", "intact_checks", "trace_rule_checks", "handover_checks", "final_free_checks", "refs_checks", "hang_verdicts", "window_sweep_runs", "spurious_cas_failures_injected", "watchdog_hang_sightings", "allocations", "pattern_verifications", "recycled_allocations", "cross_thread_transfers"] {
         if m.cnt.contains_key(k) {
             extra.push((k.to_string(), J::Int(m.c(k) as i128)));
         }
